@@ -435,6 +435,8 @@ def preflight():
                                                           selective([SVC + ".CreateWidget", SVC + ".GetWidget"])), True),
         ("selective_generation_bad_field", spec_with([{"selector": SVC + ".CreateWidget", "auto_populated_fields": ["parent"]}],
                                                      selective([SVC + ".CreateWidget", SVC + ".GetWidget"])), True),
+        ("repeated_string_field", spec_with([{"selector": SVC + ".CreateWidget", "auto_populated_fields": ["tokens"]}],
+                                            add_field("CreateWidgetRequest", {"name": "tokens", "number": 9, "type": "string", "repeated": True, "uuid4": True})), True),
         ("foreign_request_bad_field", spec_with([{"selector": SVC + ".SetWidgetPolicy", "auto_populated_fields": ["resource"]}], add_foreign_method), True),
         ("duplicate_adjacent", spec_with([A, dict(A)]), True),
         ("duplicate_separated", spec_with([A, B, dict(A)]), True),
